@@ -18,13 +18,22 @@ def plain(v):
     return [int(a) for a in v]
 
 
+def typed(c):
+    """Arguments are Python ints unless the case names a numpy dtype (then numpy scalars of that dtype)."""
+    if c.get("dtype"):
+        import numpy as np
+        return np.dtype(c["dtype"]).type
+    return int
+
+
 def machine(c):
-    w, h, rx, ry = c["w"], c["h"], c["rx"], c["ry"]
+    T = typed(c)
+    w, h, rx, ry = T(c["w"]), T(c["h"]), T(c["rx"]), T(c["ry"])
     root = () if c.get("defaults") else (rx, ry)
     out = []
     raw_fpga = []
-    for x in range(w):
-        for y in range(h):
+    for x in map(T, range(c["w"])):
+        for y in map(T, range(c["h"])):
             ex, ey = geometry.spinn5_local_eth_coord(x, y, w, h, *root)
             bx, by = geometry.spinn5_chip_coord(x, y, *root)
             out += [int(ex), int(ey), int(bx), int(by)]
@@ -32,19 +41,23 @@ def machine(c):
                 r = geometry.spinn5_fpga_link(x, y, l, *root)
                 out.append(enc_fpga(r))
                 if r is not None:
-                    raw_fpga.append([x, y, int(l), plain(r)])
-    eth = [plain(e) for e in geometry.spinn5_eth_coords(w, h, *root)]
+                    raw_fpga.append([int(x), int(y), int(l), plain(r)])
+    # the list of Ethernet chips is asked for with Python ints (with narrow numpy scalars width + 11
+    # leaves the dtype for widths near its limit; narrow arguments in their domain are separate cases)
+    eth = [plain(e) for e in geometry.spinn5_eth_coords(c["w"], c["h"], *(() if c.get("defaults") else (c["rx"], c["ry"])))]
     return ["ok", out, eth, raw_fpga]
 
 
 def point(c):
-    f, a = c["f"], c["args"]
+    f, T = c["f"], typed(c)
+    a = [T(v) for v in c["args"]]
     if f == "local":
         return ["ok", plain(geometry.spinn5_local_eth_coord(*a))]
     if f == "chip":
         return ["ok", plain(geometry.spinn5_chip_coord(*a))]
     if f == "fpga":
         x, y, l, rx, ry = a
+        l = c["args"][2]
         try:
             l = Links(l)            # callers pass enum members; other integers go in as they are
         except ValueError:
@@ -216,7 +229,7 @@ def run_case(c):
         if c["k"] == "point":
             return point(c)
         if c["k"] == "dims":
-            return ["ok", plain(geometry.standard_system_dimensions(c["n"]))]
+            return ["ok", plain(geometry.standard_system_dimensions(typed(c)(c["n"])))]
     except ValueError:
         return ["fail", 0]
     except Exception as e:
